@@ -974,10 +974,15 @@ func ruleFloatWidth(r *Run, p *Prog) {
 						class = "+Inf"
 					} else if ok && sgn < 0 {
 						class = "-Inf"
+					} else if class == "" {
+						class = "anyInf" // sign 0 (or not a constant): true for +Inf and -Inf alike
 					}
 				}
 			}
-			if class != "" && bad == "" {
+			if class == "anyInf" && bad == "" && litKnown && len(lit) > 0 {
+				bad = fmt.Sprintf("writes the constant % x under math.IsInf(v, 0), which holds for both signs: one of the two infinities is written with the other's bit pattern", lit)
+			}
+			if class != "" && class != "anyInf" && bad == "" {
 				want := map[string]map[int]string{
 					"NaN":  {5: "\xfa\x7f\xc0\x00\x00", 9: "\xfb\x7f\xf8\x00\x00\x00\x00\x00\x00"},
 					"+Inf": {5: "\xfa\x7f\x80\x00\x00", 9: "\xfb\x7f\xf0\x00\x00\x00\x00\x00\x00"},
